@@ -123,12 +123,13 @@ PROPS = {
     },
     "C04": {
         "kernel_sample": 120,
+        "extra_targets": ["tests/FlocqAgreement.vo"],
         "harness_timeout": 3000,
         "rule": "model comparison through dds::decode at the native channel layout and all three precisions (F32 compared bit for bit): the 35 pixel formats - formats of <= 16 bits per pixel over every encoded value (quick: every 5th group of 16), wider ones per channel (every 8/10/11/16-bit field run through its values, f32 channels through specials, rounding boundaries of x*255+0.5 and x*65535+0.5 and random words) in 16x1 and 4x4 images; "
                 "the 7 sub-sampled formats at widths 1..10 x heights 1..3 (odd and even) with random and patterned bytes and every byte value; the 3 bi-planar formats at even sizes 2..8 x 2..6; "
                 "12000 (thorough 120000) hardware f32 operations (+ - * /, int->f32, f32->u8/u16/u32 casts, min/max/clamp, comparisons on specials, subnormals, boundaries, random patterns) against the IEEE model; "
                 "implementation-only oracle: all 65536 half-float codes through R16_FLOAT to U8 and U16 against exact integer arithmetic; distinct = distinct case lines",
-        "trusted_base": BASE_TRUST + ["model/Float.v is an executable IEEE-754 model written for this project (not Flocq); it is tied to the hardware arithmetic the implementation runs on by differential execution only",
+        "trusted_base": BASE_TRUST + ["model/Float.v is an executable IEEE-754 model written for this project; it is tied to the hardware arithmetic the implementation runs on by differential execution, and agrees with Flocq's binary32 operations on an in-kernel sample of 3225 operand pairs x 5 operations (coq/tests/FlocqAgreement.v, a test; only that file depends on Flocq's classical axioms)",
                                       "model/Uncomp.v states the documented bit fields, channel orders and defaults; it is the specification of the wiring and is compared with the code on every run"],
         "assumptions": ["f32 -> U8/U16 (R32*_FLOAT) is proved for every f32 in [0, 2^40) (monotone, every decision boundary within one ULP of the ideal); negative, huge, infinite and NaN inputs and the YUV matrices off the grey axis are modelled and compared only",
                         "non-native channel layouts are C05's subject"],
@@ -144,6 +145,7 @@ PROPS = {
     },
     "C12": {
         "kernel_sample": 80,
+        "extra_targets": ["tests/FlocqAgreement.vo"],
         "harness_timeout": 3000,
         "rule": "model comparison of dds::encode (no dithering) for all 45 non-BC formats - the 7 sub-sampled formats at widths 1..9 (R1: 1..20) x heights 1..3 and the 3 bi-planar formats at even sizes, random channel layout / precision / content (60, thorough 400 images each); the 35 pixel formats x 4 input channel layouts x 3 precisions: every 8-bit value in every channel, 16-bit values (quick: every 37th, thorough all) plus boundaries, f32 specials (NaN, infinities, -0, subnormals, > 1, < 0, 65504), rounding boundaries (k+0.5)/max and k/max +-1 ulp for every field width, random values; "
                 "implementation-only oracles over all 45 non-BC formats: lossless round trips at the native layout where every stored channel holds the input (unstored channels decode to defaults), quantisation error within half a step for UNORM/SNORM fields on random f32 input incl. values outside [0,1], "
